@@ -716,6 +716,68 @@ theorem C17_rewrite_spec_any (c : RwCfg) (sp : RwSpec) (hc : CfgSpec c sp) (m : 
         simpa using this
       | _ => simp at hhost
 
+/-- **…and with a source route in front**: for ANY callback argument `m` (routed or not) that is not the C code's
+`…@[]` exception, if `rwroute m` — `m` without its route: everything through the first colon of an address that
+begins with `@` (`C17_rewrite_route`) — has one of the shapes of `specShape`, the envelope string is the documented
+rewriting of that route-free mailbox. -/
+theorem C17_rewrite_spec_route_any (c : RwCfg) (sp : RwSpec) (hc : CfgSpec c sp) (m : List Tok)
+    (hs : specShape (rwroute m) = true) (hnl : ∀ y, m ≠ .literal [] :: .at :: y) :
+    addrString (rwgeneric c m) = specString sp (rwroute m) := by
+  have hsuf : ∀ (l : List Tok), ∃ z, l = z ++ dropThroughColon l := by
+    intro l
+    induction l with
+    | nil => exact ⟨[], rfl⟩
+    | cons t r ih =>
+      unfold dropThroughColon
+      split
+      · exact ⟨[t], rfl⟩
+      · obtain ⟨z, hz⟩ := ih
+        exact ⟨t :: z, by rw [List.cons_append, ← hz]⟩
+  have hpre : ∃ z, m = rwroute m ++ z := by
+    unfold rwroute
+    split
+    · obtain ⟨z, hz⟩ := hsuf m.reverse
+      refine ⟨z.reverse, ?_⟩
+      have := congrArg List.reverse hz
+      simpa using this
+    · exact ⟨[], by simp⟩
+  have hne : rwroute m ≠ [] := by
+    intro e; rw [e] at hs; simp [specShape, splitAtTok] at hs
+  have hmne : m ≠ [] := by
+    intro e; rw [e] at hne; simp [rwroute] at hne
+  have hnl2 : ∀ y, rwroute m ≠ .literal [] :: .at :: y := by
+    intro y hy
+    obtain ⟨z, hz⟩ := hpre
+    rw [hy] at hz
+    exact hnl (y ++ z) (by rw [hz]; simp)
+  have hlast : (rwroute m).getLast? ≠ some .at := by
+    unfold specShape at hs
+    cases hsp : splitAtTok (rwroute m) with
+    | none =>
+      have := splitAtTok_none _ hsp
+      intro e
+      exact this (List.mem_of_getLast? e)
+    | some p =>
+      obtain ⟨hr, lr⟩ := p
+      simp only [hsp, Bool.and_eq_true, Bool.not_eq_true', List.isEmpty_eq_false_iff, bne_iff_ne, ne_eq] at hs
+      obtain ⟨e1, _⟩ := splitAtTok_some _ hr lr hsp
+      rw [e1]
+      have : (hr ++ Tok.at :: lr).getLast? = lr.getLast? := by
+        cases lr with
+        | nil => exact absurd rfl hs.1.1
+        | cons u v =>
+          rw [List.getLast?_append, List.getLast?_cons_cons]
+          cases hx : (u :: v).getLast? with
+          | none => simp at hx
+          | some x => simp
+      rw [this]; exact hs.1.2
+  have hidem : ∀ x, x.getLast? ≠ some Tok.at → rwroute x = x := by
+    intro x hx; unfold rwroute; rw [if_neg hx]
+  have h1 := rwgeneric_body c m hmne hnl
+  have h2 := rwgeneric_body c (rwroute m) hne hnl2
+  rw [hidem _ hlast] at h2
+  rw [h1, ← h2]
+  exact C17_rewrite_spec_any c sp hc _ hs
 /-- **Command-line recipients** (`dorecip`: `quote2`, `token822_parse`, `rwgeneric`, `token822_unquote`) **= the
 documented rewriting** (audit repair).  For EVERY local part (any bytes) and every sane host name (`ok[]` bytes,
 non-empty, not ending in a dot): the recipient `local@host` given on the command line enters the envelope as
@@ -830,20 +892,21 @@ theorem C17_field_types_by_name (h : Bytes) :
 /-- **From header TEXT to envelope STRINGS** (audit repair: the end-to-end claim, assembled).  `h` is the text of
 one header field: ANY legal rendering (`C17_parse_render`: any quoting, white space, folding, comments anywhere
 in the body) of `name : address-list`, where the address list is the tree `L` (`C17_envelope_ast`) whose
-mailboxes have one of the shapes of `specShape`, the field's own name (independent matcher) is To, Cc, Bcc or
+mailboxes — after removal of a source route, `rwroute` — have one of the shapes of `specShape` (and are not the C
+code's `…@[]` exception), the field's own name (independent matcher) is To, Cc, Bcc or
 Apparently-To (`cls = 1`; Resent-To, Resent-Cc, Resent-Bcc for `cls = 2`), and the control values are sane
 (`CfgSpec`, delivered by `C17_control_cfg`).  Then what the field contributes to qmail-inject's recipient list
 `hrlist` (`hrrlist`) — by `C17_envelope_inject` a segment of the envelope — is exactly the list of the tree's
-mailboxes, right to left, each rewritten by the DOCUMENTED string-level rule `Spec.Addr.rewriteMailbox`
-(`specString`); and it contributes nothing to the other list. -/
+mailboxes, right to left, each — its source route stripped — rewritten by the DOCUMENTED string-level rule
+`Spec.Addr.rewriteMailbox` (`specString`); and it contributes nothing to the other list. -/
 theorem C17_field_end_to_end (c : RwCfg) (sp : RwSpec) (hc : CfgSpec c sp) (cls : Nat) (L : List Addr)
     (cts : List (Bytes × CTok)) (tr : Bytes) (name colon : Tok) (body : List Tok) (hL : ∀ a ∈ L, a.ok)
     (hok : cts.all (fun p => p.2.ok) = true) (hsep : sepsOk false cts = true) (htr : tr.all isWs = true)
     (htoks : cts.map (fun p => p.2.tok) = name :: colon :: body)
     (hskel : body.filter notComment = (((flatAddrs L).flatMap El.toks).reverse).filter notComment)
-    (hshape : ∀ m ∈ L.flatMap Addr.mailboxes, specShape m = true)
+    (hshape : ∀ m ∈ L.flatMap Addr.mailboxes, specShape (rwroute m) = true ∧ ∀ y, m ≠ .literal [] :: .at :: y)
     (hname : (cls = 1 ∧ nameIn rcptFields (render cts tr) = true) ∨ (cls = 2 ∧ nameIn resentRcptFields (render cts tr) = true)) :
-    hrContribution c cls (render cts tr) = (L.flatMap Addr.mailboxes).map (specString sp) ∧
+    hrContribution c cls (render cts tr) = (L.flatMap Addr.mailboxes).map (fun m => specString sp (rwroute m)) ∧
     hrContribution c (3 - cls) (render cts tr) = [] := by
   obtain ⟨ts, hp, hk, hg⟩ := C17_envelope_ast (rwgeneric c) L cts tr name colon body hL hok hsep htr htoks hskel
   have hcls : (fieldClass (hfieldKnown (render cts tr))).1 = cls := by
@@ -860,7 +923,7 @@ theorem C17_field_end_to_end (c : RwCfg) (sp : RwSpec) (hc : CfgSpec c sp) (cls 
     rw [hg, List.map_map]
     apply List.map_congr_left
     intro m hm
-    exact C17_rewrite_spec_any c sp hc m (hshape m hm)
+    exact C17_rewrite_spec_route_any c sp hc m (hshape m hm).1 (hshape m hm).2
   · unfold hrContribution
     rw [if_neg]
     rw [hcls]
@@ -1188,8 +1251,17 @@ def exCts2 : List (Bytes × CTok) :=
 def exTree2 : List Addr := [.mbox (.plain [.atom [120, 43], .at, .atom [99]]), .mbox (.plain [.atom [98], .at, .atom [97]])]
 example : exCts2.all (fun p => p.2.ok) = true ∧ sepsOk false exCts2 = true := by decide
 example : nameIn rcptFields (render exCts2 [10]) = true := by decide
-example : ∀ m ∈ exTree2.flatMap Addr.mailboxes, specShape m = true := by decide
-example : (exTree2.flatMap Addr.mailboxes).map (specString exSp) = [[99, 64, 120, 46, 112], [97, 64, 98, 46, 100]] := by decide
+example : exTree2.flatMap Addr.mailboxes = [[.atom [120, 43], .at, .atom [99]], [.atom [98], .at, .atom [97]]] := by decide
+example : ∀ m ∈ ([[.atom [120, 43], .at, .atom [99]], [.atom [98], .at, .atom [97]]] : List (List Tok)),
+    specShape (rwroute m) = true ∧ ∀ y, m ≠ .literal [] :: .at :: y := by
+  intro m hm
+  simp only [List.mem_cons, List.not_mem_nil, or_false] at hm
+  rcases hm with rfl | rfl <;> exact ⟨by decide, fun y h => by simp at h⟩
+example : (exTree2.flatMap Addr.mailboxes).map (fun m => specString exSp (rwroute m)) = [[99, 64, 120, 46, 112], [97, 64, 98, 46, 100]] := by decide
+/-- a routed mailbox `J <@r:u@h>` (callback argument `h @ u : r @`): the route is stripped, then `u@h.d` -/
+example : specShape (rwroute [.atom [104], .at, .atom [117], .colon, .atom [114], .at]) = true ∧
+    specString exSp (rwroute [.atom [104], .at, .atom [117], .colon, .atom [114], .at]) = [117, 64, 104, 46, 100] ∧
+    addrString (rwgeneric exCfg [.atom [104], .at, .atom [117], .colon, .atom [114], .at]) = [117, 64, 104, 46, 100] := by decide
 example : hrContribution exCfg 1 (render exCts2 [10]) = [[99, 64, 120, 46, 112], [97, 64, 98, 46, 100]] := by decide
 /-- good tokens: `To: a@b+` -/
 example : ([.atom [84, 111], .colon, .atom [97], .at, .atom [98, 43]] : List Tok).all goodTok = true := by decide
